@@ -677,9 +677,20 @@ func (f *formatter) StmtIf(n *ast.StmtIf) {
 
 func (f *formatter) StmtInlineHtml(n *ast.StmtInlineHtml) {
 	if f.state == FormatterStateHTML {
+		var shebang []*token.Token
+		if n.InlineHtmlTkn != nil {
+			for _, ff := range n.InlineHtmlTkn.FreeFloating {
+				// the "#!" line in front of leading HTML stays: without it
+				// HTML that itself starts with "#!" would become the shebang
+				if ff.ID == token.T_COMMENT && bytes.HasPrefix(ff.Value, []byte("#!")) {
+					shebang = append(shebang, ff)
+				}
+			}
+		}
 		n.InlineHtmlTkn = &token.Token{
-			ID:    token.T_INLINE_HTML,
-			Value: n.Value,
+			ID:           token.T_INLINE_HTML,
+			Value:        n.Value,
+			FreeFloating: shebang,
 		}
 	} else {
 		n.InlineHtmlTkn = f.newToken(token.T_STRING, n.Value)
